@@ -35,6 +35,7 @@ type Repo struct {
 	Shard     int // shard number; repos sharing a number form a compound shard
 	Tenant    int
 	Rank      uint16
+	Prio      int // > 0: RawConfig "priority"; index.Merge puts repositories of higher priority first
 }
 
 // Doc is one document. Syms are [start,end) rune offsets into Content.
@@ -177,6 +178,9 @@ func (c *Corpus) ZoektRepo(ri int) *zoekt.Repository {
 	}
 	for i, b := range r.Branches {
 		zr.Branches = append(zr.Branches, zoekt.RepositoryBranch{Name: b, Version: fmt.Sprintf("v%d-%d", ri, i)})
+	}
+	if r.Prio > 0 {
+		zr.RawConfig["priority"] = fmt.Sprint(r.Prio)
 	}
 	if r.Public {
 		zr.RawConfig["public"] = "1"
